@@ -35,10 +35,12 @@ fn exercise_record(what: &str, rec: &Record, n: usize) -> Check {
     let _ = observe(&format!("{}::compressed", what), n, || rec.compressed())?;
     let _ = observe(&format!("{}::messages", what), n, || rec.messages().map(|m| m.len()))?;
     let _ = observe(&format!("{}::fmt", what), n, || format!("{:?}", rec))?;
+    let _ = observe(&format!("{}::fmt-pretty", what), n, || format!("{:#?}", rec))?;
     let d = observe(&format!("{}::decompress", what), n, || rec.decompress())?;
     if let Ok(inner) = d {
         let _ = observe(&format!("{}::decompress::messages", what), n, || inner.messages().map(|m| m.len()))?;
         let _ = observe(&format!("{}::decompress::fmt", what), n, || format!("{:?}", inner))?;
+        let _ = observe(&format!("{}::decompress::fmt-pretty", what), n, || format!("{:#?}", inner))?;
         let _ = observe(&format!("{}::decompress::compressed", what), n, || inner.compressed())?;
     }
     Ok(())
@@ -59,7 +61,7 @@ fn check_bytes_inner(b: &[u8]) -> Check {
     // as a volume file
     let file = observe("File::new", n, || File::new(b.to_vec()))?;
     let _ = observe("File::data", n, || file.data().len())?;
-    let _ = observe("File::header", n, || file.header().map(|h| format!("{:?}", h)))?;
+    let _ = observe("File::header", n, || file.header().map(|h| format!("{:?} {:#?}", h, h)))?;
     let records = observe("File::records", n, || file.records())?;
     // no record extends past the data: the records are consecutive slices of the bytes after the header
     let mut total = 0usize;
@@ -78,6 +80,8 @@ fn check_bytes_inner(b: &[u8]) -> Check {
         exercise_record("File::records[i]", r, n)?;
     }
     let _ = observe("File::fmt", n, || format!("{:?}", file))?;
+    // the alternate (pretty) form is what dbg!() prints; width / precision flags must not matter either
+    let _ = observe("File::fmt-pretty", n, || format!("{:#?} {:10.3?}", file, file))?;
     let _ = observe("File::scan", n, || file.scan().map(|s| s.sweeps().len()))?;
     // as an LDM record
     exercise_record("Record::new", &Record::new(b.to_vec()), n)?;
@@ -87,6 +91,7 @@ fn check_bytes_inner(b: &[u8]) -> Check {
     if let Ok(chunk) = chunk {
         let _ = observe("Chunk::data", n, || chunk.data().len())?;
         let _ = observe("Chunk::fmt", n, || format!("{:?}", chunk))?;
+        let _ = observe("Chunk::fmt-pretty", n, || format!("{:#?}", chunk))?;
         match &chunk {
             Chunk::Start(f) => {
                 let _ = observe("Chunk::Start::records", n, || f.records().len())?;
